@@ -11,7 +11,7 @@ OBLIGATIONS = [
     ob('C16.replace.trim', SC + 'c16_replace_trim', 'REPLACE (all occurrences; missing arguments -> empty value, no panic), TRIM / LTRIM / RTRIM arms - 6 witnesses', units=['scalar'], complete=False, bound=B),
 ]
 for _h, _d in [('case', 'LOWER / UPPER arms (verbatim): ASCII, non-ASCII letters, empty - 4 witnesses'), ('initcap', 'INITCAP arm: every word capitalised, rest lower - 2 witnesses'),
-               ('abs_least_greatest', 'ABS / LEAST / GREATEST arms: values, the first argument counts, ill-typed first argument -> empty value, ill-typed later argument skipped - 7 witnesses'),
+               ('abs_least_greatest', 'ABS / LEAST / GREATEST arms: values, the first argument counts, ill-typed first argument -> empty value, ill-typed later argument skipped, all-negative / all-positive / single argument - 12 witnesses'),
                ('sqrt', 'SQRT arm: exact squares, ill-typed -> empty value - 3 witnesses')]:
     OBLIGATIONS.append(ob('C16.' + _h.replace('_', '.'), SC + 'c16_' + _h, _d, units=['scalar'], complete=False, bound=B))
 OBLIGATIONS.append(ob('C16.date.parts', SC + 'c16_date_parts', 'YEAR / MONTH / DAY / DOW arms (verbatim, shim calendar value for what parse_datetime returns): for every date the part asked for; DOW is 1 for Sunday .. 7 for Saturday; an argument that is no date gives an empty value', units=['scalar']))
